@@ -154,7 +154,8 @@ def long_path_task(task):
 
 def plan(tier):
     if tier == 'thorough':
-        return [(1, 2, 16), (1, 3, 9), (2, 3, 12), (2, 4, 7), (1, 4, 5), (3, 4, 10), (3, 5, 5), (2, 5, 4)]
+        return [(1, 2, 24), (1, 3, 13), (2, 3, 16), (2, 4, 9), (1, 4, 7), (3, 4, 12), (3, 5, 6), (2, 5, 5), (1, 5, 4),
+                (4, 5, 10), (4, 6, 5)]
     return [(1, 2, 8), (1, 3, 6), (2, 3, 6), (2, 4, 5), (3, 4, 6)]
 
 
